@@ -305,6 +305,37 @@ def big_offset(rep):
         rep.fail("big-offset", "copy with a 4-byte offset mis-decoded: %r" % r, r)
 
 
+def memory(rep):
+    """what the Python decoder holds while it decodes, against Delta.mat_py (proved <= the declared size)"""
+    impl = Impl(PROP)
+    model = Model(PROP)
+    thorough = rep.tier == "thorough"
+    cases = []
+    for base in ("z66k", "b70k"):
+        n = len(GD.BASES[base])
+        for decl in (0, 3, 65536, 70000, 2 ** 33, 2 ** 62):
+            for op, reps in ((b"\x80", (1, 2, 40, 1500)), (b"\x90\xff", (3, 4000)), (b"\xb1\x05\x00\x40", (700,)),
+                             (b"\x7f" + b"x" * 127, (2, 600)), (b"\x01y", (5000,))):
+                for k in (reps if thorough else reps[-1:]):
+                    cases.append(("@" + base, GD.enc(n) + GD.enc(decl) + op * k))
+            # a valid prefix, then copies that can never fit
+            cases.append(("@" + base, GD.enc(n) + GD.enc(65536 + 10) + b"\x80" + b"\x05hello" + b"\x80" * 300))
+    ires = impl.run([{"fn": "apply_mem", "src": s, "delta": hx(d)} for s, d in cases])
+    mres = model.run(["mat_py %x %s" % (len(GD.resolve(s)), hx(d)) for s, d in cases])
+    for (s, d), r, m in zip(cases, ires, mres):
+        case = {"src": s, "delta": hx(d)[:400], "delta_len": len(d), "declared": declared(d)}
+        rep.case("decoder-memory", key=(s, d), nontrivial=True, outcome=(r or {}).get("r"), sample=case)
+        if not isinstance(r, dict) or "peak" not in r:
+            rep.fail("worker-died", "memory measurement died: %r" % (r,), case)
+            continue
+        mat = int(m, 16)
+        # every chunk is a bytes object (33 bytes of header) in a list; nothing else may grow with the delta
+        bound = mat + 100 * len(d) + 65536
+        if r["peak"] > bound:
+            rep.fail("python-decoder-memory", "apply_delta held %d bytes at its peak for a delta of %d bytes declaring %s; "
+                     "Delta.mat_py allows %d materialised bytes (bound used %d)" % (r["peak"], len(d), declared(d), mat, bound), case)
+
+
 def run(rep):
     rep.extra["rule"] = ("corpus of design-time reproducers; exhaustive tails over an opcode-covering alphabet behind the "
                          "correct source-size header for 5 bases; structured mutations of valid deltas (size varints of "
@@ -335,6 +366,7 @@ def run(rep):
         muts += mutate(rep, name, d, nmut)
     apply_cases(rep, muts, "mutations")
     big_offset(rep)
+    memory(rep)
 
 
 def replay(rep, body):
